@@ -713,7 +713,8 @@ bool ReadArrayFromTextStream(Array *array, Stream *stream) {
     if (!DiscardWhitespace(stream)) return false;
     if (!stream->Read(&c)) return false;
     if (c != ',') {
-      if (c != '}') return false;
+      // The comma is optional: multiline output separates elements with
+      // newlines only.
       if (!stream->Unread(c)) return false;
     }
   }
